@@ -11,6 +11,7 @@ mod duals;
 mod hols;
 mod linalg;
 mod rng;
+mod ser;
 mod splines;
 
 use std::io::{BufRead, BufWriter, Write};
@@ -73,6 +74,9 @@ fn step(st: &mut State, toks: &[&str]) -> String {
     if let Some(a) = splines::step(&st.duals, &mut st.splines, toks) {
         return a;
     }
+    if let Some(a) = ser::step(&st.duals, &st.dates, &st.curves, &st.fx, &st.splines, toks) {
+        return a;
+    }
     if let Some(a) = hols::step(&mut st.hols, toks) {
         return a;
     }
@@ -101,6 +105,7 @@ fn main() {
                 "C13" => linalg::gen_c13(&mut out, thorough, seed),
                 "C14" => splines::gen_c14(&mut out, thorough, seed),
                 "C15" => splines::gen_c15(&mut out, thorough, seed),
+                "C16" => ser::gen_c16(&mut out, thorough, seed),
                 "C17" => duals::gen_c17(&mut out, thorough, seed),
                 "C18" => duals::gen_c18(&mut out, thorough, seed),
                 "C19" => duals::gen_c19(&mut out, thorough, seed),
